@@ -45,11 +45,15 @@ def gen_cases(tier, seed):
                 cases.append({"kind": "transform", "cfg": cfg, "policy": pol, "mode": mode,
                               "seed": env.subseed(seed, "c13", fam, ci, mode), "world": "f64",
                               "cost": 8 if "umnn" in fam else 2})
+            if fam in ("actnorm", "batchnorm", "composite", "inverse", "multiscale") or "actnorm" in str(cfg) or "batchnorm" in str(cfg):
+                # evaluation of a model that never saw a training pass (data-dependent initialisation still pending)
+                cases.append({"kind": "transform", "cfg": cfg, "policy": "fresh", "mode": "eval", "cold": True,
+                              "seed": env.subseed(seed, "c13cold", fam, ci), "world": "f64", "cost": 2})
     for i in range(40 if tier == "quick" else 1000):
         for mode in ("eval", "train"):
             cases.append({"kind": "flow", "cfg": dzoo.sample_flow_cfg(rng), "mode": mode, "seed": env.subseed(seed, "c13f", i, mode),
-                          "world": "f64", "cost": 4})
-    for i in range(30 if tier == "quick" else 600):
+                          "world": "f64", "cost": 4, "cold": bool(mode == "eval" and i % 4 == 3)})
+    for i in range(80 if tier == "quick" else 1500):
         cases.append({"kind": "dist", "cfg": dzoo.sample_dist_cfg(rng), "mode": "eval" if i % 2 else "train",
                       "seed": env.subseed(seed, "c13d", i), "world": "f64", "cost": 1})
     return cases
@@ -106,7 +110,7 @@ def run_case(case):
         if kind == "transform":
             cfg = case["cfg"]
             me = zoo.meta(cfg)
-            model = zoo.make(cfg, case["policy"], seed, mode="eval")
+            model = zoo.make(cfg, case["policy"], seed, mode="eval", do_warm=not case.get("cold"))
             label = cfg["fam"]
             if cfg["fam"] in ("logit",):
                 me = dict(me, dom_in=("box", 0.0, 1.0), special=[0.0, 1.0, 0.5])
@@ -128,8 +132,9 @@ def run_case(case):
             opnames = ["forward", "inverse"]
         elif kind == "flow":
             cfg = case["cfg"]
-            model = dzoo.build_flow(cfg, seed)
-            dzoo.warm_flow(model, cfg, seed)
+            model = dzoo.build_flow(cfg, seed, policy="fresh" if case.get("cold") else "randn1")
+            if not case.get("cold"):
+                dzoo.warm_flow(model, cfg, seed)
             label = "flow_" + cfg["flow"]
 
             def mk_inputs(step, alt_shape=False):
@@ -176,7 +181,7 @@ def run_case(case):
         mt = model_tensors(model)
         prot.update(mt)
         allow = {"model." + n for n in allowed_names(model, op)} if mode == "train" else set()
-        nsamp = 2 + step % 3
+        nsamp = 1 if (step + seed) % 2 == 0 else (2, 4, 3)[step % 3]      # one draw per row: repeat_rows returns a view of its argument
 
         def call(m, xx, cc):
             if op == "forward":
